@@ -123,6 +123,8 @@ pub fn run(input: &Value) -> Case {
     let mut panicked = false;
     let mut split = false; // some call left the front chunk partly consumed
     let mut dropped = false; // a drop discarded something
+    let mut front_partial = false; // the front chunk is partly consumed right now
+    let mut drop_partial = false; // a discarding drop found it so
     let mut max_chunks = 0usize;
     for o in &ops {
         let before = (q.chunks_count(), q.len());
@@ -147,11 +149,19 @@ pub fn run(input: &Value) -> Case {
                 obs_coq.push(format!("Ob {} {} {} {} {}", rc, len, count, cbool(empty), cbytes(&slice)));
                 obs_json.push(json!({"ret": rj, "len": len, "count": count, "empty": empty, "slice": jbytes(&slice)}));
                 max_chunks = max_chunks.max(count);
-                if matches!(o, Op::Read(_) | Op::Consume(_) | Op::ConsumeWith(..)) && count == before.0 && len < before.1 {
-                    split = true;
+                if matches!(o, Op::Read(_) | Op::Consume(_) | Op::ConsumeWith(..) | Op::ReadToEnd) {
+                    if count == before.0 && len < before.1 {
+                        split = true;
+                        front_partial = true;
+                    } else if count < before.0 {
+                        front_partial = false;
+                    }
                 }
                 if matches!(o, Op::Drop) && count < before.0 {
                     dropped = true;
+                    if front_partial {
+                        drop_partial = true;
+                    }
                 }
             }
         }
@@ -165,6 +175,7 @@ pub fn run(input: &Value) -> Case {
         format!("max_chunks={}", if max_chunks > 32 { ">32".to_string() } else if max_chunks > 6 { "7-32".to_string() } else { max_chunks.to_string() }),
         format!("split_front={}", split),
         format!("drop_discards={}", dropped),
+        format!("drop_with_front_partly_consumed={}", drop_partial),
         format!("panic={}", panicked),
     ];
     if ops.windows(2).any(|w| matches!(w, [Op::Flush, Op::Flush])) {
@@ -477,9 +488,8 @@ pub fn gen_ops(rng: &mut Rng) -> Vec<Op> {
             ops.push(Op::ReadToEnd);
         }
     }
-    if rng.chance(1, 2) {
-        ops.push(Op::ReadToEnd);
-    }
+    // always drain at the end, so that what a late drop kept (and only that) is read back
+    ops.push(Op::ReadToEnd);
     ops
 }
 
